@@ -107,34 +107,35 @@ def normalise(e, op):
     ev["errno"] = 0 if not isinstance(r, dict) else (r["err"] if isinstance(r.get("err"), int) else -1)
     ev.pop("msg", None)
     ev.pop("stderr", None)
+    for c in ev.get("calls", []):
+        c.pop("err", None)
     for k, d in (("n", 0), ("us", 0), ("events", []), ("revents", []), ("max", 1), ("timeout", 0)):
         ev.setdefault(k, d)
     return ev
 
 
-def canaries(trace_seq):
-    """corrupted copies of one recorded sequence; each must be flagged by EpollTrace"""
-    out = []
-    waits = [k for k, e in enumerate(trace_seq) if e.get("op") == "wait" and e.get("ok")]
-    for n, k in enumerate(waits[:6]):
-        c = json.loads(json.dumps(trace_seq[:k + 1]))
-        w = c[-1]
-        kind = n % 3
-        if kind == 0:
-            w["events"] = w["events"] + [{"data": 987654, "ev": ["IN"]}]
-            w["n"] += 1
-            w["max"] += 1
-            why = "UnknownUserData"
-        elif kind == 1 and w["events"]:
-            w["events"][0]["ev"] = w["events"][0]["ev"] + ["PRI"]
-            why = "EventsNotAllowed"
-        elif kind == 2 and not w["events"] and w["timeout"] > 0:
-            w["us"] = 1
-            why = "EarlyTimeout"
-        else:
-            continue
-        out.append((c, why))
-    return out
+def canaries():
+    """synthetic recorded sequences, each breaking one clause; EpollTrace must flag every one"""
+    def ev(i, op, **kw):
+        e = {"i": i, "op": op, "ok": True, "hang": False, "errno": 0, "n": 0, "us": 0, "events": [], "revents": [], "max": 1, "timeout": 0}
+        e.update(kw)
+        return e
+    reg = ev(0, "register", o=1, data=10, mask=["IN"])
+    reg_et = ev(0, "register", o=1, data=10, mask=["IN", "ET"])
+    pw = ev(1, "peer_write", o=1)
+    one = [{"data": 10, "ev": ["IN"]}]
+    return [
+        ([reg, pw, ev(2, "wait", max=2, n=2, events=one + [{"data": 987654, "ev": ["IN"]}])], "UnknownUserData"),
+        ([reg, pw, ev(2, "wait", max=2, n=1, events=[{"data": 10, "ev": ["IN", "PRI"]}])], "EventsNotAllowed"),
+        ([reg, pw, ev(2, "wait", max=2, n=1, events=[{"data": 10, "ev": ["OUT"]}])], "EventsMissing"),
+        ([reg, ev(1, "wait", max=1, timeout=20, us=1)], "EarlyTimeout"),
+        ([reg, pw, ev(2, "wait", max=1)], "EmptyButReady"),
+        ([reg_et, pw, ev(2, "wait", n=1, events=one), ev(3, "wait", n=1, events=one)], "NotReady"),
+        ([reg, pw, ev(2, "unregister", o=1), ev(3, "wait", n=1, events=one)], "UnknownUserData"),
+        ([reg, pw, ev(2, "wait", max=1, n=2, events=one + one)], "TooMany"),
+        ([reg, ev(1, "register", o=1, data=11, mask=["IN"])], "CtlShouldFail"),
+        ([ev(0, "poll", entries=[{"o": 1, "ev": ["IN"]}], n=1, revents=[["IN"]])], "EventsNotAllowed"),
+    ]
 
 
 def run(tier):
@@ -161,20 +162,15 @@ def run(tier):
             t.append(normalise(e, p["ops"][e["i"]]))
         per_seq[p["seq"]] = t
         trace += t
-    # anti-vacuity
+    # anti-vacuity: synthetic sequences that each break one clause
     CAN = 10 ** 6
     expected = {}
-    ncan = 0
-    for s in sorted(per_seq):
-        if ncan >= 9:
-            break
-        for c, why in canaries(per_seq[s]):
-            ncan += 1
-            cid = CAN + ncan
-            for e in c:
-                e["seq"] = cid
-            expected[cid] = why
-            trace += c
+    for n, (c, why) in enumerate(canaries()):
+        cid = CAN + n + 1
+        trace.append({"ev": "reset", "seq": cid, "kinds": ["sock"]})
+        for e in c:
+            trace.append(dict(e, seq=cid))
+        expected[cid] = why
     path = os.path.join(chk.work, "epoll_trace_%s.ndjson" % tier)
     core.write_ndjson(path, trace)
     res = core.run_tlc("EpollTrace.tla", "EpollTrace.cfg", workers=1, env={"TRACE": path}, timeout=3000, xmx="4g", deque=True)
@@ -210,7 +206,7 @@ def run(tier):
         for reason in b["reasons"]:
             sig = {"api": "ppoll" if b["op"].startswith("poll") else api_of[b["seq"]], "op": b["op"], "reason": reason}
             chk.violate(sig, "%s via %s: %s - op %d of sequence %d: %s" % (b["op"], sig["api"], reason, b["i"], b["seq"],
-                                                                         json.dumps({k: rec.get(k) for k in ("max", "timeout", "ok", "errno", "events", "revents", "n", "us", "entries") if k in rec})[:400]),
+                                                                         json.dumps({k: rec.get(k) for k in ("max", "timeout", "ok", "errno", "events", "revents", "n", "us", "entries", "calls", "ts_after_us") if k in rec})[:400]),
                         {"plan": p, "upto": b["i"], "recorded": per_seq[b["seq"]][1:b["i"] + 2]})
     for p in plan[:4]:
         chk.sample({"api": p["api"], "kinds": p["kinds"], "ops": [o["op"] for o in p["ops"]],
